@@ -10,9 +10,12 @@ SUF = {'basic::ZoneContext::kSuffixW': 0, 'basic::ZoneContext::kSuffixS': 16, 'b
 
 
 def ev(expr):
+    """the value of the C++ constant expression the generator emits (an explicit (int8_t) cast wraps; without a cast the
+    value is what the initializer list is given -- outside -128..127 the compiler rejects it)"""
     for k, v in SUF.items():
         expr = expr.replace(k, str(v))
-    return eval(expr, {'__builtins__': {}})
+    expr = expr.replace('(int8_t) (', 'int8_t(')
+    return eval(expr, {'__builtins__': {}, 'int8_t': lambda v: ((v + 128) % 256) - 128})
 
 
 rows = []
